@@ -18,8 +18,8 @@ CHECKS = {
          "DESIGN.md section 4 C03"),
  "C04": ("model_checking",
          "explicit-state BFS over block/restart/pool/mine histories on real nodes; blocks built by the real assembler in a block factory; per-branch ledger of signed payloads as reference model",
-         "Every history up to the depth bound of factory-built blocks (menu: T, T with re-encoded signature, box(T,U), T twice, T plus box, early-expiring V; at instants around the expiration window and the replay-cache pruning horizon; on any held parent by two different deputies), node restarts, and pool/mine/sibling-block events on a node that is a deputy, is run on fresh real nodes. After every history every branch of the node's chain is scanned: each signed payload (signing hash + signer set, incl. box sub-transactions) at most once, every executed tx inside [exp-1800, exp]; an honest block whose payloads are only on another fork must be accepted.",
-         "Depth 3 (linear/fork) and 4 (miner) quick, 4/4/5 thorough; one payload family T/U/V; single-deputy chain for the time-window scenario.",
+         "Every history up to the depth bound of factory-built blocks (menu: T, T with re-encoded signature, T with an outsider's signature appended, box(T,U), an early-expiring box around T, T twice, T plus box, early-expiring V; at instants around the expiration window - one second too early, first and last second, one second late - and the replay-cache pruning horizon; on any held parent by two different deputies), node restarts, and pool/mine/sibling-block events on a node that is a deputy, is run on fresh real nodes. After every history every branch of the node's chain is scanned: each signed payload (= signing hash, which covers sender, content and expiration; incl. box sub-transactions) at most once, every executed tx inside [exp-1800, exp]; an honest block whose payloads are only on another fork must be accepted.",
+         "Depth 3 (linear/fork) and 4 (miner) quick, 4/4/5 thorough; one payload family T/U/V, all from plain accounts: multi-signature senders (reordered or reduced signature lists give other tx hashes) are not enumerated; single-deputy chain for the time-window scenario.",
          "DESIGN.md section 4 C04"),
  "C13": ("exploration",
          "exhaustive grid enumeration of the real scheduling functions against a 25-line reference rotation",
@@ -28,22 +28,22 @@ CHECKS = {
          "DESIGN.md section 4 C13"),
  "C02": ("exploration",
          "exhaustive enumeration of a mutation-operator table x signing modes on real nodes, reference validity predicate + honest re-execution by the block factory, before/after snapshot comparison",
-         "Every single mutation operator (52 operators over parent, miner, roots, height, gas, time, extra, transactions, change logs, deputy list) x 6 signing modes (kept, re-signed by the miner / another deputy / an outsider, junk, empty) x {roots recomputed or not} on 7 (chain state, valid candidate block) pairs (fresh, 3-block chain, two forks, after a stable advance; on head and on inner / short-fork parents), thorough: all pairs of operators from different groups. accepted => validRef (parent known, height, time window, extra, signed by the reference-rotation deputy with its miner address, tx windows and replays, equality with an honest re-execution by the factory); rejected => (head, stable, stored blocks + confirm counts, watched accounts at head, pool, tx-guard answers) unchanged; a panic is a violation.",
-         "3 genesis deputies, 10 s slots, observer node, wall clock far later than honest block times (the now+1 s tolerance edge is not enumerated); gasLimit and extra are the miner's free choices; snapshot-height candidate blocks not yet enumerated.",
+         "Every single mutation operator (61 operators over parent, miner, roots, height, gas, time, extra, transactions, change logs, deputy list; 9 of them let the block factory EXECUTE a changed transaction list, so that the block is consistent in every root and wrong only in the transaction it carries: expired, lifetime 1801 s, replayed, duplicated, wrong chain, box sub-transaction outside its window, and the two valid edges) x 6 signing modes (kept, re-signed by the miner / another deputy / an outsider, junk, empty) x {roots recomputed or not} on 7 (chain state, valid candidate block) pairs (fresh, 3-block chain, two forks, after a stable advance; on head and on inner / short-fork parents), thorough: all pairs of operators from different groups. accepted => validRef (parent known, height, time window, extra, signed by the reference-rotation deputy with its miner address, tx windows and replays, equality with an honest re-execution by the factory); rejected => (head, stable, stored blocks + confirm counts, watched accounts at head, pool, tx-guard answers) unchanged; a panic is a violation.",
+         "The engine's goroutines are gated through the source overlay and run to completion at fixed points under the node's own key. 3 genesis deputies, 10 s slots, observer node, wall clock far later than honest block times (the now+1 s tolerance edge is not enumerated); gasLimit and extra are the miner's free choices; snapshot-height candidate blocks not yet enumerated.",
          "DESIGN.md section 4 C02"),
  "C01": ("exploration",
-         "bounded exhaustive enumeration of ordered transaction lists on real miner and validator paths; cross-node differential oracle (miner vs restarted validator vs fresh validator with other prior history vs redo of the change logs)",
-         "Every ordered list without repeats of length <= 2 (quick) / <= 3 (thorough) over a 25-transaction menu covering all 11 tx types (valid, failing, reverting, self-destructing, value-forwarding, box-wrapped, gas-payer, multi-signature, contract-creating / calling) is mined by the real BlockAssembler.MineBlock on a prefix state; with each of 4 discard-only candidates inserted at every position the mined block must be bit-identical; a validator whose data directory was copied and reopened (process restart) and a fresh validator that has just executed and rejected a corrupted sibling must accept the block and hold the same account data, field for field, for all touched + watched addresses; redoing the published logs must give the attributes redo defines.",
-         "Single deputy, one prefix state; Go map iteration order is not enumerated (runs use whatever order the runtime picks); the store's background writer is quiesced between blocks (its races are C08/C19's subject).",
+         "bounded exhaustive enumeration of ordered transaction lists x discard candidates x block gas limits x controlled map iteration orders on real miner and validator paths; cross-node differential oracle (long-running miner vs restarted miner vs restarted validator vs fresh validator with other prior history vs redo of the change logs)",
+         "Every ordered list without repeats of length <= 2 (quick) / <= 3 (thorough) over a 25-transaction menu covering all 11 tx types (valid, failing, reverting, self-destructing, value-forwarding, box-wrapped, gas-payer, multi-signature, contract-creating / calling) is mined by the real BlockAssembler.MineBlock on a prefix state; with each of 4 discard-only candidates inserted at every position the mined block must be bit-identical; under each of 6 controlled map iteration orders (source overlay pass maprange: all n! orders of maps with <= 3 keys, 6 spread-out ones above) the mined block must be bit-identical and restarted validators running under them must accept it; a miner restarted from disk (no prior executions on this parent) must mine the same block as the long-running one; for every block gas limit at which the pool runs dry exactly at one of the (sub-)transactions, alone and with every discard candidate at every position, the block must equal the one mined from exactly the packaged transactions and be accepted; a validator whose data directory was copied and reopened (process restart) and a fresh validator that has just executed and rejected a corrupted sibling must accept the block and hold the same account data, field for field, for all touched + watched addresses; redoing the published logs must give the attributes redo defines.",
+         "Single deputy, one prefix state; map loops outside the instrumented packages (common/*, store internals other than cblock / vote / chain_database) keep the runtime's order; which transactions FIT into a nearly full block may depend on discarded candidates (their reserved gas stays taken) and is counted, not asserted; the store's background writer is quiesced between blocks and the engine's notification goroutines are dropped.",
          "DESIGN.md section 4 C01"),
  "C05": ("exploration",
          "bounded exhaustive enumeration of ordered transaction lists on the real miner path with a conservation monitor as invariant",
-         "Every ordered list without repeats of length <= 2 (quick) / <= 3 (thorough) over the 25-transaction menu is mined on the prefix state; on every block: sum of all balance changes == -(burns); the income address receives exactly what the gas payers are charged; per-tx gasUsed <= gasLimit and header.GasUsed is the sum; no negative balance; for single-transaction blocks a failed tx moves nothing but its fee and the payer pays exactly gasUsed x gasPrice (+ at most the amount).",
+         "Every ordered list without repeats of length <= 2 (quick) / <= 3 (thorough) over the 25-transaction menu is mined on the prefix state, and again with every block gas limit at which the pool runs dry at one of the (sub-)transactions (what a full block drops must cost nobody anything); on every block: sum of all balance changes == -(burns); the income address receives exactly what the gas payers are charged; per-tx gasUsed <= gasLimit and header.GasUsed is the sum; no negative balance; for single-transaction blocks a failed tx moves nothing but its fee and the payer pays exactly gasUsed x gasPrice (+ at most the amount).",
          "Ordinary heights only: term rewards, deposit refunds at term boundaries and reward settings are not enumerated yet; the only burner in the menu is the contract that self-destructs to itself.",
          "DESIGN.md section 4 C05"),
  "C18": ("model_checking",
          "explicit-state BFS of operation sequences against a set model (part A) and preemption-bounded exhaustive interleaving exploration under a controlled scheduler with co-enabledness race check and brute-force linearizability (part B), both on the real TxPool",
-         "Part A: every sequence up to depth 4 (quick) / 5 (thorough) of AddTx/AddTxs/GetTxs/DelTxs over 5 plain transactions and 2 overlapping boxes with pool capacity 2 (growth and gc reached), expirations and monotone selection times, on the real pool next to a reference model that is agnostic only where the statement is open (box deletion vs. sub-transactions pooled on their own). Part B: 8 scenarios of 2-3 threads x 1-2 operations on overlapping transactions, every interleaving with <= 2 (thorough 3) preemptions; scheduling points at the pool mutex and at every read/write of txs, hashIndexMap and cap (generated source overlay); each complete schedule: call/return history linearizable w.r.t. the model, no two threads co-enabled on conflicting accesses, no deadlock, no panic.",
+         "Part A: every sequence up to depth 5 (quick) / 6 (thorough) of AddTx/AddTxs/GetTxs/DelTxs over 5 plain transactions and 2 overlapping boxes with pool capacity 2 (growth and gc reached), expirations and monotone selection times, on the real pool next to a reference model that is agnostic only where the statement is open (box deletion vs. sub-transactions pooled on their own). Part B: 8 scenarios of 2-3 threads x 1-2 operations on overlapping transactions, every interleaving with <= 2 (thorough 3) preemptions; scheduling points at the pool mutex and at every read/write of txs, hashIndexMap and cap (generated source overlay); each complete schedule: call/return history linearizable w.r.t. the model, no two threads co-enabled on conflicting accesses, no deadlock, no panic.",
          "Order of GetTxs results not asserted; AddTx refusing is never a violation; the engine-level fork-switch clause (pool vs. old/new fork transactions) is exercised in C04's miner scenario only.",
          "DESIGN.md section 4 C18"),
 
@@ -74,12 +74,12 @@ CHECKS = {
          "DESIGN.md section 4 C14"),
  "C16": ("exploration",
          "bounded exhaustive program enumeration (macro programs and raw byte programs) on the real EVM over the real account.Manager with whole-state before/after comparison around every failing frame",
-         "Quick: every program of <= 1 macro over the 273-macro alphabet and of 2 macros over a 43-macro sub-alphabet for contract A, each x the fixed behaviours of B and C its call graph reaches, x entries EVM.Call / StaticCall / Create with enumerated gas, value, call data and three pre-states; all raw byte programs of length <= 2; the nine precompiles on boundary inputs of length 0..200. Thorough: 2 macros over the full alphabet, 3 over the sub-alphabet, 4 over a 16-macro mini alphabet, A<=2 x every B<=2, raw programs of length 3 (32 bytes) and 4 (16 bytes); 16.5 M cases. Oracles: no panic; gas left <= gas supplied and never growing inside a frame; determinism (identical result, gas, raw state dump and journal on an identically rebuilt manager); after every failing top-level entry and every nested CALL / CALLCODE / DELEGATECALL / STATICCALL / CREATE that pushes 0 (depth <= 4) every loaded account reads as before and the journal is unchanged but for the platform's one failure event; read-only frames change nothing; never more than 1024 frames below the transaction frame (recursion programs reach exactly that).",
+         "Quick: every program of <= 1 macro over the 273-macro alphabet and of 2 macros over a 43-macro sub-alphabet for contract A, each x the fixed behaviours of B and C its call graph reaches, x entries EVM.Call / StaticCall / Create with enumerated gas, value, call data and three pre-states; all raw byte programs of length <= 2; the nine precompiles on boundary inputs of length 0..200. Thorough: 2 macros over the full alphabet, 3 over the sub-alphabet, 4 over a 16-macro mini alphabet, A<=2 x every B<=2, raw programs of length 3 (32 bytes) and 4 (16 bytes); 16.5 M cases. CREATE macros include init codes that jump (short, far, into push data), so that two different init codes run in one transaction. Oracles: no panic; every jump performed goes to a JUMPDEST of the running code outside push data and no such destination is refused (reference analysis of the code alone: where a program may jump must not depend on what ran before); gas left <= gas supplied and never growing inside a frame; determinism (identical result, gas, raw state dump and journal on an identically rebuilt manager); after every failing top-level entry and every nested CALL / CALLCODE / DELEGATECALL / STATICCALL / CREATE that pushes 0 (depth <= 4) every loaded account reads as before and the journal is unchanged but for the platform's one failure event; read-only frames change nothing; never more than 1024 frames below the transaction frame (recursion programs reach exactly that).",
          "Runs with 2^63-1 gas exceeding the interpreter step budget are cancelled and counted, not evaluated; no-op change logs of zero-value transfers inside read-only calls (removed by MergeChangeLogs) are not state.",
          "DESIGN.md section 4 C16"),
  "C17": ("model_checking",
          "explicit-state BFS over update / delete / get / hash / commit / reopen histories on the real trie over TrieDatabase over BeansDB against a map model (fresh-trie root as order-independence oracle, harness-assembled proofs through VerifyProof), plus exhaustive enumeration of Merkle leaf lists, positions and alterations",
-         "Part A: 21 scenarios = 7 key/value alphabets (plain keys with shared prefixes incl. the empty key and a 32-byte key; secure keys; values of 1, 28, 29, 31, 32, 100 bytes and empty) x cache-generation limit {0, 1, 120}; events TryUpdate, TryDelete, TryGet, Hash, Trie.Commit, durable commit, reopen on the same / a fresh TrieDatabase / the previous durable root; after every history: reads equal the model, Hash equals the root of a fresh trie built from the model in sorted order, a reopened trie has the committed content, VerifyProof over the committed node set returns exactly the model's value for present keys, nothing for absent keys, and fails when any node on the path is altered or removed. Part A2: four large histories (1500 / 6000 keys) reaching TrieDatabase.Commit's intermediate batch flush. Part B: common/merkle over every leaf list in the stated families, every position, every single-byte alteration of leaf, siblings and root, dropped and side-swapped path entries.",
+         "Part A: 21 scenarios = 7 key/value alphabets (plain keys with shared prefixes incl. the empty key and a 32-byte key; secure keys; values of 1, 28, 29, 31, 32, 100 bytes and empty) x cache-generation limit {0, 1, 120}; events TryUpdate, TryDelete, TryGet, Hash, Trie.Commit, durable commit, reopen on the same / a fresh TrieDatabase / the previous durable root; after every history: reads equal the model, Hash equals the root of a fresh trie built from the model in sorted order, a reopened trie has the committed content, VerifyProof over the committed node set returns exactly the model's value for present keys, nothing for absent keys, and fails when any node on the path is altered or removed. Part A2: four large histories (1500 / 6000 keys) reaching TrieDatabase.Commit's intermediate batch flush. Part B: common/merkle over every leaf list in the stated families (also handed over as a prefix of a longer slice: same root, caller's array untouched), every position, every single-byte alteration of leaf, siblings and root, dropped and side-swapped path entries.",
          "trie.Prove is commented out in this tree: proofs are assembled by the harness from the committed nodes; keccak256 collision free on the enumerated inputs; Merkle leaves are hashes (the tree has no leaf / inner domain separation).",
          "DESIGN.md section 4 C17"),
 }
